@@ -268,6 +268,36 @@ def check_axisless_squeeze(run, A, module_prefixes, rule='R-ELL'):
     return n
 
 
+AXISLESS_REDUCERS = ('sum', 'mean', 'amax', 'amin', 'max', 'min', 'prod', 'norm', 'median', 'std', 'var', 'argmax', 'argmin', 'nansum', 'nanmax', 'nanmin', 'ptp', 'average')
+
+
+def check_axisless_reductions(run, A, quals, rule='R-ELL', exceptions=None):
+    """in a function that acts per leading index (`...`-polymorphic by contract) every reduction of a data array names its axis: a reduction
+    over everything (np.max(np.abs(x)), x.sum()) makes the result at one leading index depend on the content of the others - e.g. a floor
+    relative to the largest value of ALL bins.  Reductions of shape arithmetic / constants are not data."""
+    from .walk import axis_uses, data_terms
+    exceptions = exceptions or {}
+    n = 0
+    for q in quals:
+        fn = A.prog.func(q)
+        g = A.graphs.get(fn)
+        for t, opnd, ax, cname, e in axis_uses(g):
+            if cname.split('.')[-1].split(':')[-1] not in AXISLESS_REDUCERS:
+                continue
+            if opnd is None or not any(x.op in ('param', 'free') for x in data_terms(opnd)):
+                continue
+            n += 1
+            none = ax is None or (ax.op == 'const' and ax.args[0] is None)
+            if none and (q, cname) in exceptions:
+                run.ok(rule, f'{fn.qual.split("::")[1]}: {cname} over everything [listed]', fn.loc(t.node), exceptions[(q, cname)])
+                continue
+            run.check(not none, rule, f'{fn.qual.split("::")[1]}: {cname.split(".")[-1].split(":")[-1]}() names its axis', fn.loc(t.node), '',
+                      f'`{norm_stmt(t.node)[:90]}` reduces over all axes: the result at one leading index (frequency bin, stacked problem) depends on the others',
+                      construct=f'{rule}::{fn.qual}::axisless-reduction::{cname}')
+    run.count('data reductions examined (axis named)', n)
+    return n
+
+
 def check_layout_dependent_flatten(run, A, module_prefixes, rule='R-ELL'):
     """a flattening (ravel / flatten / reshape) does not use order='K' / 'A': with these the ORDER OF THE VALUES follows the memory layout
     of the argument, so a transposed view of the same array gives a different result - the per-index results that are reshaped back in C
